@@ -774,15 +774,23 @@ fn build_one(c: &mut Ctx, fam: &str, idx: u64, rng: &mut Rng) {
         let under = |l: &[u8], n: &[u8]| { let mut v = vec![l.len() as u8]; v.extend_from_slice(l); v.extend_from_slice(n); v };
         seq.push(za.clone());
         seq.push(under(&child, &za));
-        seq.push(under(b"x", &under(&child, &za)));
+        seq.push(under(b"Example", &under(&child, &za)));
         for i in 0..between {
             seq.push(names::from_labels(&[format!("host{:02}", i).into_bytes()]));
         }
         seq.push(names::from_labels(&[b"filler".to_vec(), b"invalid-b".to_vec()]));
         seq.push(zb.clone());
         seq.push(under(&child, &zb));
-        for o in seq {
-            items.push(ModelItem { section: 1, owner: o, rtype: w::T_A, class: 1, ttl: 300, fs: vec![Fv::Raw(rng.bytes(4))] });
+        let regress = (idx / 50) % 2 == 1;
+        for (k, o) in seq.iter().enumerate() {
+            items.push(ModelItem { section: 1, owner: o.clone(), rtype: w::T_A, class: 1, ttl: 300, fs: vec![Fv::Raw(rng.bytes(4))] });
+            if regress && k == 3 {
+                // the grandchild once more, as the target of a CNAME (written as a bare pointer), and
+                // right behind it a short sibling of the child: the zone's entry is used twice in a
+                // row, the second time with fewer labels in front of it
+                items.push(ModelItem { section: 1, owner: seq[0].clone(), rtype: w::T_CNAME, class: 1, ttl: 300, fs: vec![Fv::Name { wire: o.clone(), lc: true, compress: true }] });
+                items.push(ModelItem { section: 1, owner: under(b"m", &za), rtype: w::T_A, class: 1, ttl: 300, fs: vec![Fv::Raw(rng.bytes(4))] });
+            }
         }
     }
     // labels whose 16-bit hash in the new compressor is zero, below the first name of the message
